@@ -142,9 +142,18 @@ def builders():
     def tr_stack(fr, s):
         return cb.TransformedStack(grid(0, s), [cb.Translation([0, 0, 0.7 * s]), cb.Rotation([0, 0, 1], 0.3, [0, 0, 0])], 3, [cb.Translation([0, 0, 0.35 * s]), cb.Rotation([0, 0, 1], 0.15, [0, 0, 0])])
 
+    def rot_about(axis, ang):
+        def fn(p):
+            n = np.asarray(axis, float) / np.linalg.norm(axis)
+            return p * math.cos(ang) + np.cross(n, p) * math.sin(ang) + n * float(n @ p) * (1 - math.cos(ang))
+
+        return fn
+
     B["ExtrudedStack"] = (ext_stack, chop_ops, {"frames": [0]})
-    B["RevolvedStack"] = (rev_stack, chop_ops, {"frames": [0]})
-    B["TransformedStack"] = (tr_stack, chop_ops, {"frames": [0]})
+    # side_mid: where the arc of a side edge has to pass, as a function of the edge's lower end (canonical frame, size s):
+    # every tier's mid sketch is that tier's start sketch under the mid transformations
+    B["RevolvedStack"] = (rev_stack, chop_ops, {"frames": [0], "side_mid": lambda p, s: rot_about([1, 0, 0], 1.0 / 3 / 2)(p)})
+    B["TransformedStack"] = (tr_stack, chop_ops, {"frames": [0], "side_mid": lambda p, s: rot_about([0, 0, 1], 0.15)(p + np.array([0, 0, 0.35 * s]))})
 
     sketches = {
         "OneCoreDisk": lambda fr, s: cb.OneCoreDisk(P(fr, [0, 0, 0], s), P(fr, [0.8, 0, 0], s), V(fr, [0, 0, 1])),
@@ -365,6 +374,30 @@ def run_shape(case):
                     if abs(np.linalg.norm(np.cross(q - o, ax)) - r_ends[0]) > 1e-6 * s or abs(float((q - o) @ ax) - h_ends[0]) > 1e-6 * s:
                         bad("outer-arc-off-circle", f"arc of revolution between {ends[0].round(5).tolist()} and {ends[1].round(5).tolist()} passes through {q.round(5).tolist()}: radius {np.linalg.norm(np.cross(q - o, ax))} instead of {r_ends[0]}")
                         break
+    if "side_mid" in opt:
+        R, t = FRAMES[fr]
+        arcs = {frozenset((ed.vertex_1.index, ed.vertex_2.index)): ed for ed in mesh.edge_list.edges if ed.kind in ("arc", "origin", "angle")}
+        done = False
+        for blk in mesh.blocks:
+            for c in range(4):
+                lo, hi = blk.vertices[c], blk.vertices[c + 4]
+                ed = arcs.get(frozenset((lo.index, hi.index)))
+                canon = R.T @ (np.asarray(lo.position) - t)
+                want = R @ opt["side_mid"](canon, s) + t
+                a, b = np.asarray(lo.position), np.asarray(hi.position)
+                if np.linalg.norm(np.cross(want - a, b - a)) < 1e-7 * s * s:
+                    continue  # a point on the axis: the three points are collinear and the edge is rightly a line
+                if ed is None:
+                    bad("side-arc-missing", f"no arc between vertices {lo.index} and {hi.index} of a stack with mid transformations")
+                    done = True
+                    break
+                got = np.asarray(ed.third_point.position)
+                if np.linalg.norm(got - want) > 1e-6 * s:
+                    bad("side-arc-not-through-mid-sketch", f"side edge {lo.index}-{hi.index}: arc point {got.round(5).tolist()}, the tier's start point under the mid transformations is {want.round(5).tolist()}")
+                    done = True
+                    break
+            if done:
+                break
     # documented chops are sufficient
     if chop is not None:
         try:
